@@ -1,1 +1,49 @@
-From WT Require Import Base.Wrap.
+(** * C15 — Corrupt or hostile bytes are rejected with an error, never a crash.
+    The decoders of the model have no "panic" outcome at all: they are total functions into
+    Ok / Want n / Err, with Go's 32- and 64-bit arithmetic written out ([Model/Codec.v]).  The
+    theorems bound what a successful decode can have allocated by the size of its input, show that
+    Open trusts a header only after validation and a length check, and that a handle on any
+    validated header answers fetches without panicking whatever its slots contain. *)
+From WT Require Import Base.Wrap Base.ListX Base.Bytes Model.Time Model.Ring Model.Update Model.Codec Model.Handle
+  Model.FileImage Proofs.TimeProofs Proofs.RingProofs Proofs.FetchProofs Proofs.CodecProofs Proofs.HostileProofs.
+
+Theorem C15_points_allocation_bounded src ps r : dec_points_msg src = Ok ps r -> 8 + 12 * zlen ps <= zlen src.
+Proof. exact (dec_points_msg_bounded src ps r). Qed.
+Print Assumptions C15_points_allocation_bounded.
+
+Theorem C15_series_allocation_bounded src s r : dec_series src = Ok s r -> 12 + 8 * zlen (s_vals s) <= zlen src.
+Proof. exact (dec_series_bounded src s r). Qed.
+Print Assumptions C15_series_allocation_bounded.
+
+Theorem C15_header_allocation_bounded_and_validated src h r : dec_header src = Ok h r ->
+  16 + 12 * zlen (h_arcs h) <= zlen src /\ validate (h_arcs h) = true /\ zlen (h_arcs h) = h_count h /\
+  valid_method (h_method h) = true /\ valid_xff (h_xff h) = true.
+Proof. exact (dec_header_bounded src h r). Qed.
+Print Assumptions C15_header_allocation_bounded_and_validated.
+
+(** Open: whatever the bytes, an accepted file has a validated header, is at least as long as that
+    header requires, and each of its archives is a ring of exactly the announced number of slots *)
+Theorem C15_open_trusts_only_validated file h arcs : open_image file = Some (h, arcs) ->
+  Forall wf_arc arcs /\ expected_file_size h <= zlen file /\ validate (h_arcs h) = true.
+Proof. exact (open_image_wf file h arcs). Qed.
+Print Assumptions C15_open_trusts_only_validated.
+
+(** reading a slot range never panics, for any slot contents and any (unaligned, garbage) base *)
+Theorem C15_fetch_raw_total a f u : zlen (a_slots a) = a_n a -> 0 < a_n a ->
+  1 <= Z.quot (ts_sub u f) (a_step a) <= a_n a ->
+  exists ps, fetch_raw a f u = Some ps /\ zlen ps = Z.quot (ts_sub u f) (a_step a).
+Proof. exact (fetch_raw_total a f u). Qed.
+Print Assumptions C15_fetch_raw_total.
+
+Theorem C15_fetch_never_panics arcs id a from until now :
+  0 <= id -> nth_error arcs (Z.to_nat id) = Some a -> wf_arc a ->
+  period a <= now -> now + 2 * a_step a < TMAX ->
+  0 <= from < 2^32 -> 0 <= until < 2^32 -> from <= until ->
+  if (from >? now) || (until <? now - period a)
+  then fetch_from_archive arcs id from until now = FNone
+  else
+    let f := win_from a from now in let u := win_until a from until now in
+    exists vs, fetch_from_archive arcs id from until now = FSeries (mkSeries f u (a_step a) vs) /\
+               zlen vs = (u - f) / a_step a.
+Proof. exact (fetch_named_total arcs id a from until now). Qed.
+Print Assumptions C15_fetch_never_panics.
